@@ -181,6 +181,24 @@ class StubSim(mosaik_api_v3.Simulator):
                 self._rd_time = rd["time"]               # (what this simulator last wrote itself)
                 self._post("get_data", ctx.dc(data))     # (recorded like the fault-free reply)
             return rd
+        if (self.spec or {}).get("beh", {}).get("reuse_reply") and getattr(self, "_node", None) is None:
+            # an in-process simulator that keeps one reply dict (and one dict per entity) and re-fills
+            # it for every call - legal: what it returns is correct at the moment it returns it
+            keep = self.__dict__.setdefault("_keep", {})
+            for k_ in list(keep):
+                if k_ not in data:
+                    del keep[k_]
+            for k_, v_ in data.items():
+                if isinstance(v_, dict):
+                    sub = keep.get(k_)
+                    if not isinstance(sub, dict):
+                        sub = keep[k_] = {}
+                    sub.clear()
+                    sub.update(v_)
+                else:
+                    keep[k_] = v_
+            self._post("get_data", ctx.dc(keep))
+            return keep
         data = self._mangle("get_data", data)
         self._post("get_data", ctx.dc(data))
         return data
